@@ -59,7 +59,23 @@ func (x *Explorer) enter(fr *frame, from, b *ssa.BasicBlock) {
 		}
 		x.Opts.OnBackEdge(x, fr.fn, b, phis, oldT, newT, func(v ssa.Value) *Term { return x.eval(fr, v) })
 	}
-	if lm != nil {
+	concrete := false
+	if lm != nil && x.Opts.ConstLoops && x.constLoopTest(fr, b, from) {
+		// a loop whose test compares constants on this arrival (for i := 0; i < 4; i++, range over an array,
+		// a helper called with a constant count): executed concretely, iteration by iteration
+		if fr.concrete == nil {
+			fr.concrete = map[*ssa.BasicBlock]int{}
+		}
+		if from == nil || !lm.body[from] {
+			fr.concrete[b] = 0
+		}
+		if fr.concrete[b] < 64 {
+			concrete = true
+		}
+	}
+	if concrete {
+		fr.concrete[b]++
+	} else if lm != nil {
 		max := 2
 		if x.Opts.Unroll >= 1 {
 			max = 3
@@ -73,11 +89,13 @@ func (x *Explorer) enter(fr *frame, from, b *ssa.BasicBlock) {
 		x.emit(EndCut, nil, nil)
 		return
 	}
-	fr.visits[b] = n + 1
+	if !concrete {
+		fr.visits[b] = n + 1
+	}
 	oldPrev := fr.prev
 	fr.prev = from
 	general := false
-	if lm != nil {
+	if lm != nil && !concrete {
 		if x.Opts.Unroll == 0 || n >= 1 {
 			general = true
 			if x.Opts.PairIter && ((x.Opts.Unroll == 0 && n == 1) || (x.Opts.Unroll >= 1 && n == 2)) {
@@ -135,6 +153,9 @@ func (x *Explorer) enter(fr *frame, from, b *ssa.BasicBlock) {
 	}
 	x.execFrom(fr, b, i)
 	fr.visits[b] = n
+	if concrete {
+		fr.concrete[b]--
+	}
 	fr.prev = oldPrev
 }
 
@@ -818,4 +839,73 @@ func isSliceTyped(t *Term) bool {
 	}
 	_, ok := t.Type.Underlying().(*types.Slice)
 	return ok
+}
+
+// constLoopTest: block b is a loop head ending in `if X < Y` (or <=, !=, >, >=)
+// where, on arrival from `from`, X is a head phi (or phi +/- constant) whose
+// incoming value is a constant and Y is a constant (literal, a value bound to
+// a constant outside the head, or len of an array).
+func (x *Explorer) constLoopTest(fr *frame, b, from *ssa.BasicBlock) bool {
+	if len(b.Instrs) == 0 {
+		return false
+	}
+	iff, ok := b.Instrs[len(b.Instrs)-1].(*ssa.If)
+	if !ok {
+		return false
+	}
+	cmp, ok := iff.Cond.(*ssa.BinOp)
+	if !ok {
+		return false
+	}
+	switch cmp.Op {
+	case token.LSS, token.LEQ, token.GTR, token.GEQ, token.NEQ:
+	default:
+		return false
+	}
+	isConstHere := func(v ssa.Value) bool {
+		switch v := v.(type) {
+		case *ssa.Const:
+			return v.Value != nil
+		case *ssa.Phi:
+			if v.Block() != b {
+				break
+			}
+			for k, p := range b.Preds {
+				if p == from {
+					return x.eval(fr, v.Edges[k]).IsConst()
+				}
+			}
+			return false
+		case *ssa.BinOp:
+			if phi, isPhi := v.X.(*ssa.Phi); isPhi && phi.Block() == b && v.Block() == b {
+				if _, isC := v.Y.(*ssa.Const); isC {
+					for k, p := range b.Preds {
+						if p == from {
+							return x.eval(fr, phi.Edges[k]).IsConst()
+						}
+					}
+				}
+				return false
+			}
+		case *ssa.Call:
+			if bi, isB := v.Call.Value.(*ssa.Builtin); isB && bi.Name() == "len" && v.Block() == b {
+				t := v.Call.Args[0].Type().Underlying()
+				if p, isP := t.(*types.Pointer); isP {
+					t = p.Elem().Underlying()
+				}
+				_, isArr := t.(*types.Array)
+				return isArr
+			}
+		}
+		if in, isI := v.(ssa.Instruction); isI && in.Block() == b {
+			return false // computed in the head from non-constant operands
+		}
+		if _, bound := fr.env[v]; !bound {
+			if _, isP := v.(*ssa.Parameter); !isP {
+				return false
+			}
+		}
+		return x.eval(fr, v).IsConst()
+	}
+	return isConstHere(cmp.X) && isConstHere(cmp.Y)
 }
